@@ -292,12 +292,12 @@ pub fn program_has_negative_divisor(prog: &asp::Program, dom: &[Val], cx: &mut C
 /// |U| variables.
 pub fn stable_table(hs: &HtSpace, p: &P, input_mask: u64) -> (Space, Table) {
     let n = hs.n;
+    assert!(hs.fixed == 0 || hs.fixed == input_mask, "HT space fixed atoms must be the input atoms");
     let sat = hs.sat(p);
     let sp = Space::new(n);
     let mut out = sp.zero();
     for t in 0u64..(1u64 << n) {
-        let idx_tt = t | (t << n);
-        if !hs.sp.get(&sat, idx_tt) {
+        if !hs.sp.get(&sat, hs.index(t, t)) {
             continue;
         }
         // proper subsets h of t with h containing t & input_mask
@@ -309,7 +309,7 @@ pub fn stable_table(hs: &HtSpace, p: &P, input_mask: u64) -> (Space, Table) {
             let mut s = (free - 1) & free;
             loop {
                 let h = s | fixed;
-                if hs.sp.get(&sat, h | (t << n)) {
+                if hs.sp.get(&sat, hs.index(h, t)) {
                     stable = false;
                     break;
                 }
